@@ -2,7 +2,8 @@
 //!
 //! `yield_point(tag)` calls sit at the places where the interleaving of statements issued from several
 //! threads is decided: after a transaction's snapshot has been taken, around the commit of a transaction,
-//! between fetching a page and asking for its latch, between the tree operations of one statement (table
+//! inside `begin` between computing the snapshot and registering the transaction, between an INSERT's row-id lease and its
+//! constraint check, between fetching a page and asking for its latch, between the tree operations of one statement (table
 //! tree, index trees, catalog tree) and between leaving a leaf and latching the next one.  With no hook
 //! installed a yield point is one relaxed atomic load.  An external harness installs a hook that decides,
 //! per tag and per hit, whether the calling thread yields, spins or sleeps there.
@@ -14,7 +15,9 @@ use std::sync::{
 use parking_lot::RwLock;
 
 /// The places that call [`yield_point`].
-pub const TAGS: [&str; 6] = [
+pub const TAGS: [&str; 8] = [
+    "begin_snapshot",
+    "row_id_leased",
     "snapshot_taken",
     "commit_logged",
     "committed",
@@ -33,6 +36,24 @@ pub fn install(hook: Option<Hook>) {
     let on = hook.is_some();
     *HOOK.write() = hook;
     ENABLED.store(on, Ordering::SeqCst);
+}
+
+static NOT_EXCLUSIVE: parking_lot::Mutex<Vec<&'static str>> = parking_lot::Mutex::new(Vec::new());
+
+/// A yield point inside a section that the code relies on being exclusive (`exclusive` = the lock that makes it so is
+/// held for writing right now, as seen by the caller). A hit with `exclusive == false` is recorded: the section is then
+/// open to exactly the interleavings the lock is there to exclude, however rarely a run happens to realise one.
+#[inline]
+pub(crate) fn exclusive_section(tag: &'static str, exclusive: bool) {
+    if !exclusive {
+        NOT_EXCLUSIVE.lock().push(tag);
+    }
+    yield_point(tag);
+}
+
+/// Tags of the exclusive sections that were entered without their lock since the last call.
+pub fn take_not_exclusive() -> Vec<&'static str> {
+    std::mem::take(&mut *NOT_EXCLUSIVE.lock())
 }
 
 #[inline]
